@@ -119,10 +119,46 @@ func knownPair(c *cell, a, y val, ex expect) string {
 			return "F-C02-7"
 		}
 	}
+	if c.sh.family == "map-elem-absent" && c.isConst() {
+		if rec.Known("F-C02-4") && identityConst(c) {
+			return "F-C02-4"
+		}
+		if rec.Known("F-C02-11") && c.op.text == "/=" && isIntClass(k) && isPow2Const(k, c.c) {
+			return "F-C02-11"
+		}
+	}
 	if rec.Known("F-C02-9") && readsUint64FarUp(c) {
 		return "F-C02-9"
 	}
 	return ""
+}
+
+// identityConst: `place op= c` leaves every value unchanged, the shape for which
+// setPlace/setVar compile the statement to "evaluate the place for side effects only".
+func identityConst(c *cell) bool {
+	k := c.t.k
+	if k.Class() == cString {
+		return c.op.text == "+=" && c.c.s == ""
+	}
+	zero := isZeroVal(k, c.c)
+	one := sameVal(k, c.c, func() val {
+		if k.Class() == cBool {
+			return val{}
+		}
+		return oneOf(k)
+	}())
+	allOnes := isIntClass(k) && c.c == minusOneOrMax(k)
+	switch c.op.text {
+	case "+=", "-=", "|=", "^=", "&^=":
+		return zero
+	case "*=", "/=":
+		return one
+	case "&=":
+		return allOnes
+	case "<<=", ">>=":
+		return isZeroVal(c.rt.k, c.c)
+	}
+	return false
 }
 
 // readsUint64FarUp: the statement reads a uint64-kind local variable (x for op= and
